@@ -1,12 +1,13 @@
 /-
   C02 with path-kind changes — the in-place commit yields exactly the new build also when paths change kind
-  (file / directory / symlink) between the builds, outside the shapes of finding F8 that are left.
+  (file / directory / symlink) between the builds, outside the one shape of finding F8 that is left.
 
   `commit_correct_partial` (Props/C02.lean) assumes `NoKindClash old new`: NO path changes kind.  That is much
   stronger than needed.  Here the hypothesis is replaced by `BenignKindChanges old new w`, which allows
 
       symlink -> file      the new file being staged OR the output of a transposition (a `move` or a `copy`)
-      emptydir -> file     likewise
+      dir -> file          likewise, WHATEVER lies below the old directory (files of it may be renamed or copied
+                           elsewhere — even onto the directory's own path; what is left goes with the directory)
       file -> dir          the old file not being a transposition source
       file -> symlink      whatever happens to the old file (it may be renamed or copied elsewhere)
       symlink -> dir
@@ -17,41 +18,46 @@
   (`dirOrder`; `tlc.Walk` lists parents first).  `NoKindClash` implies `BenignKindChanges` (`NoKindClash.benign`),
   so `commit_correct_partial` is a corollary (`commit_correct_partial_of_kinds`).
 
-  Every clause is needed — each is violated by an instance on which the model's `commit` fails (second half of
+  Both clauses are needed — each is violated by an instance on which the model's `commit` fails (second half of
   the file, machine-checked):
 
-      F8 (1) dir -> file, new file, non-empty directory          `f8_1_*`   error (ENOTEMPTY)
-      F8 (2) dir -> file, renamed file, non-empty directory      `f8_2_*`   error (ENOTEMPTY)
       F8 (3) file -> dir holding the old file renamed            `f8_3_*`   error (EISDIR)
   and, found while looking for the right predicate (not among the four recorded shapes):
       (9) file -> dir, new directories listed child first         `g9_*`     error (ENOTDIR)  [model only]
 
-  Five more instances — the fourth recorded shape of F8 among them — were genuine defects of the code (findings
-  F25, F26, F27).  The code has been repaired, the model follows, the clauses that excluded them are gone, and the
-  instances are kept as POSITIVE ones (the commit now yields exactly the new build, `g5_ok`, `g6_ok`, `g7_ok`,
-  `f8_4_ok`, `g8_ok`):
+  Seven more instances — three of the four recorded shapes of F8 among them — were genuine defects of the code
+  (findings F25, F26, F27, F8 (1)/(2)).  The code has been repaired, the model follows, the clauses that excluded
+  them are gone, and the instances are kept as POSITIVE ones (the commit now yields exactly the new build,
+  `g5_ok`, `g6_ok`, `g7_ok`, `f8_4_ok`, `g8_ok`, `f8_1_ok`, `f8_2_ok`):
       (5) dir -> symlink, ghost reached THROUGH the new symlink   `g5_*`     was: success reported, a NEW file deleted
       (6) symlink -> file written by a transposition COPY         `g6_*`     was: success reported, symlink still there
       (7) emptydir -> file written by a transposition COPY        `g7_*`     was: error (EISDIR)
       F8 (4) dir -> symlink, a file of the directory renamed out `f8_4_*`   was: error (ENOENT)
       (8) file -> symlink, the old file renamed elsewhere         `g8_*`     was: success reported, the SYMLINK renamed
+      F8 (1) dir -> file, new file, non-empty directory          `f8_1_*`   was: error (ENOTEMPTY)
+      F8 (2) dir -> file, renamed file, non-empty directory      `f8_2_*`   was: error (ENOTEMPTY)
   F25: `deleteGhosts` now skips a ghost below a path that is a file or a symlink of the new build, so the second
   half of the former `dirToSymlink` clause ("the old paths below the directory are unreachable through the new
   symlink": `DeadEnd`) is gone.  F26: `copy` now removes a destination that is not a regular file before writing
   (as `move` always did), so the former `outputs` clause ("a transposition output does not land on an old
-  directory or symlink") is gone altogether: what is left of it — an old directory on which an output lands is
-  empty — is an instance of `emptyDir` (`BenignKindChanges.outputs`).  F27: `Commit` now puts the new symlinks in
+  directory or symlink") is gone altogether.  F27: `Commit` now puts the new symlinks in
   place AFTER the transpositions, the staged moves and the overlays (`ensureDirs` … `applyOverlays`,
   `ensureSymlinks`, `deleteGhosts`) instead of together with the directories at the start, so what a new symlink
   replaces is still there while the files are renamed and copied: the first half of `dirToSymlink` ("no
   transposition source below an old directory that becomes a symlink") is gone, and so is the second half of
-  `sources` ("a transposition source does not become a symlink").
+  `sources` ("a transposition source does not become a symlink").  F8 (1)/(2): `move` (the transpositions'
+  renames, the cleanup renames) and the staged moves clear a destination that is a DIRECTORY with `os.RemoveAll`
+  (`Commit.clearDest`), and a transposition output that is a directory of the old build gets a temporary name
+  and a cleanup rename, like an output that is some group's source (`safePass … old.dirs`), so that it is put
+  in place only after every group has been read.  The former clause `emptyDir` ("an old directory that becomes a
+  file is empty") is gone: when the staged moves and the cleanup renames run, whatever is left below such a
+  directory is a ghost — nothing of the new build lies below a path that is a file of the new build — and the
+  second pass never writes onto such a directory (`Commit.Soft`, `Commit.cleanup_specD`, `Commit.stageFold_specD`).
 
   The reordering of F27 does no harm inside `BenignKindChanges` (the theorem), and outside only within the failing
-  classes F8 (1)-(3): see "what the reordering changes OUTSIDE `BenignKindChanges`" (`h10_*`, `h11_*`).
+  class F8 (3): see "what the reordering changes OUTSIDE `BenignKindChanges`" (`h10_*`, `h11_*`).
 
-  What `BenignKindChanges` still excludes although the model handles it: see "what remains" at the end of the
-  file.
+  What is left: see "what remains" at the end of the file.
 -/
 import Wharf.Props.C02
 import Wharf.Proofs.CommitKinds
@@ -60,7 +66,7 @@ namespace Wharf.C02
 open Wharf Wharf.FS Wharf.Commit
 
 /-- the output paths of the transpositions: new paths of the recorded (source, target) pairs.  (No clause of
-    `BenignKindChanges` mentions them any more; see `BenignKindChanges.outputs`.) -/
+    `BenignKindChanges` mentions them any more.) -/
 def outputsOf (old new : Build) (w : Work) : List Path :=
   w.transpositions.filterMap fun (s, tg) =>
     match new.files[s]?, old.files[tg]? with
@@ -76,11 +82,14 @@ def outputsOf (old new : Build) (w : Work) : List Path :=
     goes away (`os.RemoveAll`) afterwards.  (The old paths below it are ghosts; since the repair of finding F25
     `deleteGhosts` skips them instead of looking them up THROUGH the new symlink, so nothing is asked of the
     symlink's destination either.)  The former clause `dirToSymlink` (no transposition source below an old
-    directory that becomes a symlink) is gone, and `sources` no longer mentions the new symlinks. -/
+    directory that becomes a symlink) is gone, and `sources` no longer mentions the new symlinks.
+
+    Nothing is asked of a path that becomes a regular FILE either: since the repair of finding F8 (1)/(2) a
+    directory standing where a staged file or a cleanup rename goes is removed with all that is left below it
+    (`os.RemoveAll`), and a transposition output that is a directory of the old build is written under a
+    temporary name first, so the files below it are still there when their groups are read.  The former clause
+    `emptyDir` (an old directory that becomes a file is empty) is gone. -/
 structure BenignKindChanges (old new : Build) (w : Work) : Prop where
-  /-- dir → file: the old directory is empty (the destination is removed with `os.Remove`, by the staged move
-      as well as by `move` and — since the repair of finding F26 — `copy` of the transpositions) -/
-  emptyDir : ∀ p ∈ old.dirs, p ∈ new.files.map (·.1) → ∀ q ∈ allPaths old, isPrefix p q = false
   /-- file → dir: the old file is not the source of a transposition (it is cleared by `ensureDirs` before the
       transpositions run) -/
   sources : ∀ p ∈ sourcesOf old new w, p ∉ new.dirs
@@ -102,23 +111,11 @@ theorem allPaths_eq (b : Build) : allPaths b = Commit.pathsOf b := rfl
 
 theorem BenignKindChanges.toBKC {old new : Build} {w : Work} (h : BenignKindChanges old new w) :
     Commit.BKC old new w := by
-  refine ⟨?_, ?_, h.dirOrder⟩
-  · intro p hd hf q hq
-    exact h.emptyDir p hd hf q hq
-  · intro p hp
-    apply h.sources
-    rw [sourcesOf_eq]
-    exact hp
-
-/-- What is left of the former clause `outputs` (a transposition output does not land on an old directory or
-    symlink): an output may land on an old symlink, and on an old directory provided that one is empty — which
-    `emptyDir` says already, an output being a file of the new build. -/
-theorem BenignKindChanges.outputs {old new : Build} {w : Work} (h : BenignKindChanges old new w) :
-    ∀ p ∈ outputsOf old new w, p ∈ old.dirs → ∀ q ∈ allPaths old, isPrefix p q = false := by
-  intro p hp hd
-  rw [outputsOf_eq] at hp
-  obtain ⟨tr, htr, rfl⟩ := List.mem_map.mp hp
-  exact h.emptyDir _ hd (Commit.tsOf_new htr)
+  refine ⟨?_, h.dirOrder⟩
+  intro p hp
+  apply h.sources
+  rw [sourcesOf_eq]
+  exact hp
 
 /-- C02 with benign kind changes: transpositions, every pair of visiting orders. -/
 theorem commit_correct_kinds_partial (old new : Build) (w : Work) (order₁ order₂ : List Path)
@@ -166,8 +163,6 @@ theorem NoKindClash.benign {old new : Build} (w : Work) (hold : BuildWF old) (hn
     rw [sourcesOf_eq] at hp
     exact Commit.srcsOf_old hp
   constructor
-  · intro p hd hf
-    cases hk _ _ _ (kindOf_dir' hd) (kindOf_file' hnew hf)
   · intro p hp h
     cases hk _ _ _ (kindOf_file' hold (hsrc p hp)) (kindOf_dir' h)
   · apply List.pairwise_of_forall_mem_list
@@ -230,11 +225,10 @@ theorem WorkOK.of_check {old new : Build} {w : Work}
 
 /-- `BenignKindChanges` on a literal instance: all clauses are decidable -/
 theorem BenignKindChanges.of_check {old new : Build} {w : Work}
-    (emptyDir : ∀ p ∈ old.dirs, p ∈ new.files.map (·.1) → ∀ q ∈ allPaths old, isPrefix p q = false)
     (sources : ∀ p ∈ sourcesOf old new w, p ∉ new.dirs)
     (dirOrder : new.dirs.Pairwise (fun a b => isPrefix b a = true →
       b ∉ old.files.map (·.1) ∧ b ∉ old.symlinks.map (·.1))) : BenignKindChanges old new w :=
-  ⟨emptyDir, sources, dirOrder⟩
+  ⟨sources, dirOrder⟩
 
 /-- a path that changes kind: the instance is outside `NoKindClash` -/
 theorem not_noKindClash {old new : Build} (p : Path) (k k' : Kind) (h1 : kindOf old p = some k)
@@ -264,7 +258,7 @@ theorem b1_work : WorkOK b1Old b1New b1Work :=
   WorkOK.of_check (by decide) (by decide) (by decide) (by decide) (by decide) (by decide) (by decide)
     (by decide) (by decide)
 theorem b1_benign : BenignKindChanges b1Old b1New b1Work :=
-  BenignKindChanges.of_check (by decide) (by decide) (by decide)
+  BenignKindChanges.of_check (by decide) (by decide)
 theorem b1_clash : ¬ NoKindClash b1Old b1New :=
   not_noKindClash ["s"] .symlink .file (by decide) (by decide) (by decide)
 theorem b1_ok : ∃ t', commit b1Old b1New b1Work [["k"]] [["k"]] (treeOfBuild b1Old) = .ok t' ∧ Holds t' b1New :=
@@ -281,7 +275,7 @@ theorem b2_work : WorkOK b2Old b2New b2Work :=
   WorkOK.of_check (by decide) (by decide) (by decide) (by decide) (by decide) (by decide) (by decide)
     (by decide) (by decide)
 theorem b2_benign : BenignKindChanges b2Old b2New b2Work :=
-  BenignKindChanges.of_check (by decide) (by decide) (by decide)
+  BenignKindChanges.of_check (by decide) (by decide)
 theorem b2_clash : ¬ NoKindClash b2Old b2New :=
   not_noKindClash ["s"] .file .symlink (by decide) (by decide) (by decide)
 theorem b2_ok : ∃ t', commit b2Old b2New b2Work [["k"]] [["k"]] (treeOfBuild b2Old) = .ok t' ∧ Holds t' b2New :=
@@ -298,7 +292,7 @@ theorem b3_work : WorkOK b3Old b3New b3Work :=
   WorkOK.of_check (by decide) (by decide) (by decide) (by decide) (by decide) (by decide) (by decide)
     (by decide) (by decide)
 theorem b3_benign : BenignKindChanges b3Old b3New b3Work :=
-  BenignKindChanges.of_check (by decide) (by decide) (by decide)
+  BenignKindChanges.of_check (by decide) (by decide)
 theorem b3_clash : ¬ NoKindClash b3Old b3New :=
   not_noKindClash ["s"] .symlink .dir (by decide) (by decide) (by decide)
 theorem b3_ok : ∃ t', commit b3Old b3New b3Work [["k"]] [["k"]] (treeOfBuild b3Old) = .ok t' ∧ Holds t' b3New :=
@@ -315,7 +309,7 @@ theorem b4_work : WorkOK b4Old b4New b4Work :=
   WorkOK.of_check (by decide) (by decide) (by decide) (by decide) (by decide) (by decide) (by decide)
     (by decide) (by decide)
 theorem b4_benign : BenignKindChanges b4Old b4New b4Work :=
-  BenignKindChanges.of_check (by decide) (by decide) (by decide)
+  BenignKindChanges.of_check (by decide) (by decide)
 theorem b4_clash : ¬ NoKindClash b4Old b4New :=
   not_noKindClash ["e"] .dir .file (by decide) (by decide) (by decide)
 theorem b4_ok : ∃ t', commit b4Old b4New b4Work [["k"]] [["k"]] (treeOfBuild b4Old) = .ok t' ∧ Holds t' b4New :=
@@ -332,7 +326,7 @@ theorem b5_work : WorkOK b5Old b5New b5Work :=
   WorkOK.of_check (by decide) (by decide) (by decide) (by decide) (by decide) (by decide) (by decide)
     (by decide) (by decide)
 theorem b5_benign : BenignKindChanges b5Old b5New b5Work :=
-  BenignKindChanges.of_check (by decide) (by decide) (by decide)
+  BenignKindChanges.of_check (by decide) (by decide)
 theorem b5_clash : ¬ NoKindClash b5Old b5New :=
   not_noKindClash ["f"] .file .dir (by decide) (by decide) (by decide)
 theorem b5_ok : ∃ t', commit b5Old b5New b5Work [["k"]] [["k"]] (treeOfBuild b5Old) = .ok t' ∧ Holds t' b5New :=
@@ -350,7 +344,7 @@ theorem b6_work : WorkOK b6Old b6New b6Work :=
   WorkOK.of_check (by decide) (by decide) (by decide) (by decide) (by decide) (by decide) (by decide)
     (by decide) (by decide)
 theorem b6_benign : BenignKindChanges b6Old b6New b6Work :=
-  BenignKindChanges.of_check (by decide) (by decide) (by decide)
+  BenignKindChanges.of_check (by decide) (by decide)
 theorem b6_clash : ¬ NoKindClash b6Old b6New :=
   not_noKindClash ["d"] .dir .symlink (by decide) (by decide) (by decide)
 theorem b6_ok : ∃ t', commit b6Old b6New b6Work [["k"]] [["k"]] (treeOfBuild b6Old) = .ok t' ∧ Holds t' b6New :=
@@ -364,7 +358,7 @@ theorem b6a_work : WorkOK b6Old b6aNew b6Work :=
   WorkOK.of_check (by decide) (by decide) (by decide) (by decide) (by decide) (by decide) (by decide)
     (by decide) (by decide)
 theorem b6a_benign : BenignKindChanges b6Old b6aNew b6Work :=
-  BenignKindChanges.of_check (by decide) (by decide) (by decide)
+  BenignKindChanges.of_check (by decide) (by decide)
 theorem b6a_ok : ∃ t', commit b6Old b6aNew b6Work [["k"]] [["k"]] (treeOfBuild b6Old) = .ok t' ∧
     Holds t' b6aNew :=
   commit_correct_kinds_partial _ _ _ _ _ b6_old_wf b6a_new_wf b6a_benign b6a_work (by decide) (by decide)
@@ -380,7 +374,7 @@ theorem b6f_work : WorkOK b6fOld b6fNew b6fWork :=
   WorkOK.of_check (by decide) (by decide) (by decide) (by decide) (by decide) (by decide) (by decide)
     (by decide) (by decide)
 theorem b6f_benign : BenignKindChanges b6fOld b6fNew b6fWork :=
-  BenignKindChanges.of_check (by decide) (by decide) (by decide)
+  BenignKindChanges.of_check (by decide) (by decide)
 theorem b6f_ok : ∃ t', commit b6fOld b6fNew b6fWork [["b"]] [["b"]] (treeOfBuild b6fOld) = .ok t' ∧
     Holds t' b6fNew :=
   commit_correct_kinds_partial _ _ _ _ _ b6f_old_wf b6f_new_wf b6f_benign b6f_work (by decide) (by decide)
@@ -396,7 +390,7 @@ theorem b6e_work : WorkOK b6eOld b6eNew b6eWork :=
   WorkOK.of_check (by decide) (by decide) (by decide) (by decide) (by decide) (by decide) (by decide)
     (by decide) (by decide)
 theorem b6e_benign : BenignKindChanges b6eOld b6eNew b6eWork :=
-  BenignKindChanges.of_check (by decide) (by decide) (by decide)
+  BenignKindChanges.of_check (by decide) (by decide)
 theorem b6e_ok : ∃ t', commit b6eOld b6eNew b6eWork [["b", "x"]] [["b", "x"]] (treeOfBuild b6eOld) = .ok t' ∧
     Holds t' b6eNew :=
   commit_correct_kinds_partial _ _ _ _ _ b6e_old_wf b6e_new_wf b6e_benign b6e_work (by decide) (by decide)
@@ -423,7 +417,7 @@ theorem b7_work : WorkOK b7Old b7New b7Work :=
   WorkOK.of_check (by decide) (by decide) (by decide) (by decide) (by decide) (by decide) (by decide)
     (by decide) (by decide)
 theorem b7_benign : BenignKindChanges b7Old b7New b7Work :=
-  BenignKindChanges.of_check (by decide) (by decide) (by decide)
+  BenignKindChanges.of_check (by decide) (by decide)
 theorem b7_sources : sourcesOf b7Old b7New b7Work = [["b"], ["a"]] := by decide
 theorem b7_ok (order₁ order₂ : List Path) (ho₁ : order₁.Perm [["b"], ["a"]]) (ho₂ : order₂.Perm [["b"], ["a"]]) :
     ∃ t', commit b7Old b7New b7Work order₁ order₂ (treeOfBuild b7Old) = .ok t' ∧ Holds t' b7New :=
@@ -489,6 +483,35 @@ theorem holds_of_check {t : Tree} {b : Build}
     · subst h0; simp [Tree.get]
     · rw [Archive.get_none_of_fresh h0 (fun e he => hp.1 e he), Archive.get_none_of_fresh h0 (fun e he => hp.2 e he)]
 
+/-- ghost deletion when every ghost lies below a file or a symlink of the new build: all are skipped, in
+    whatever order they come -/
+theorem ghosts_all_skipped (leaves : List Path) (t : Tree) : ∀ (L : List (Path × Bool)),
+    (∀ x ∈ L, leaves.any (fun l => isPrefix l x.1) = true) → L.foldlM (Commit.ghostStep leaves) t = .ok t
+  | [], _ => rfl
+  | x :: L, h => by
+    have hx : Commit.ghostStep leaves t x = .ok t := by
+      simp only [Commit.ghostStep, h x (by simp), if_true]
+    simp only [List.foldlM_cons, hx, bind, Except.bind]
+    exact ghosts_all_skipped leaves t L (fun y hy => h y (by simp [hy]))
+
+/-- ghost deletion when no ghost is there any more (each one is skipped, or missing): nothing happens, in whatever
+    order they come.  (`List.mergeSort` on two or more elements does not reduce, so `deleteGhosts` is evaluated
+    through this and `Commit.deleteGhosts_eq`.) -/
+theorem ghosts_all_noop (leaves : List Path) (t : Tree) : ∀ (L : List (Path × Bool)),
+    (∀ x ∈ L, yields (Commit.ghostStep leaves t x) t.entries = true) → L.foldlM (Commit.ghostStep leaves) t = .ok t
+  | [], _ => rfl
+  | x :: L, h => by
+    have hx : Commit.ghostStep leaves t x = .ok t := eq_of_yields (h x (by simp))
+    simp only [List.foldlM_cons, hx, bind, Except.bind]
+    exact ghosts_all_noop leaves t L (fun y hy => h y (by simp [hy]))
+
+theorem deleteGhosts_noop {old new : Build} {t : Tree}
+    (h : ∀ x ∈ Commit.ghostList old new, yields (Commit.ghostStep (Commit.leavesOf new) t x) t.entries = true) :
+    deleteGhosts old new t = .ok t := by
+  rw [Commit.deleteGhosts_eq]
+  apply ghosts_all_noop
+  exact fun x hx => h x (List.mem_mergeSort.mp hx)
+
 /-! ### the repaired shapes: three former counterexamples on which the commit is now right
 
   (5), (6), (7) were found while looking for the right predicate; each was a machine-checked instance on which
@@ -514,7 +537,7 @@ theorem g5_hyps : OtherHyps g5Old g5New g5Work [["b", "f"]] [["b", "f"]] :=
       (by decide) (by decide), by decide, by decide⟩
 /-- the instance is inside `BenignKindChanges` now that nothing is asked of the symlink's destination -/
 theorem g5_benign : BenignKindChanges g5Old g5New g5Work :=
-  BenignKindChanges.of_check (by decide) (by decide) (by decide)
+  BenignKindChanges.of_check (by decide) (by decide)
 theorem g5_clash : ¬ NoKindClash g5Old g5New :=
   not_noKindClash ["a"] .dir .symlink (by decide) (by decide) (by decide)
 
@@ -564,7 +587,7 @@ theorem g6_hyps : OtherHyps g6Old g6New g6Work [["b"]] [["b"]] :=
       (by decide) (by decide), by decide, by decide⟩
 /-- the instance is inside `BenignKindChanges` now that nothing is asked of the transposition outputs -/
 theorem g6_benign : BenignKindChanges g6Old g6New g6Work :=
-  BenignKindChanges.of_check (by decide) (by decide) (by decide)
+  BenignKindChanges.of_check (by decide) (by decide)
 theorem g6_clash : ¬ NoKindClash g6Old g6New :=
   not_noKindClash ["s"] .symlink .file (by decide) (by decide) (by decide)
 
@@ -604,7 +627,7 @@ theorem g7_hyps : OtherHyps g7Old g7New g7Work [["x"]] [["x"]] :=
       (by decide) (by decide), by decide, by decide⟩
 /-- the instance is inside `BenignKindChanges` now that nothing is asked of the transposition outputs -/
 theorem g7_benign : BenignKindChanges g7Old g7New g7Work :=
-  BenignKindChanges.of_check (by decide) (by decide) (by decide)
+  BenignKindChanges.of_check (by decide) (by decide)
 theorem g7_clash : ¬ NoKindClash g7Old g7New :=
   not_noKindClash ["e"] .dir .file (by decide) (by decide) (by decide)
 theorem g7_commit : commit g7Old g7New g7Work [["x"]] [["x"]] (treeOfBuild g7Old) = .ok g7T5 :=
@@ -651,7 +674,7 @@ theorem f8_4_hyps : OtherHyps f4Old f4New f4Work [["d", "x"], ["k"]] [["d", "x"]
 /-- the instance is inside `BenignKindChanges` now that nothing is asked of what lies below a directory that
     becomes a symlink -/
 theorem f8_4_benign : BenignKindChanges f4Old f4New f4Work :=
-  BenignKindChanges.of_check (by decide) (by decide) (by decide)
+  BenignKindChanges.of_check (by decide) (by decide)
 theorem f8_4_clash : ¬ NoKindClash f4Old f4New :=
   not_noKindClash ["d"] .dir .symlink (by decide) (by decide) (by decide)
 
@@ -700,7 +723,7 @@ theorem g8_hyps : OtherHyps g8Old g8New g8Work [["a"]] [["a"]] :=
       (by decide) (by decide), by decide, by decide⟩
 /-- the instance is inside `BenignKindChanges` now that a transposition source may become a symlink -/
 theorem g8_benign : BenignKindChanges g8Old g8New g8Work :=
-  BenignKindChanges.of_check (by decide) (by decide) (by decide)
+  BenignKindChanges.of_check (by decide) (by decide)
 theorem g8_clash : ¬ NoKindClash g8Old g8New :=
   not_noKindClash ["a"] .file .symlink (by decide) (by decide) (by decide)
 theorem g8_commit : commit g8Old g8New g8Work [["a"]] [["a"]] (treeOfBuild g8Old) = .ok g8T5 :=
@@ -714,39 +737,117 @@ example : ∃ t', commit g8Old g8New g8Work [["a"]] [["a"]] (treeOfBuild g8Old) 
   commit_correct_kinds_partial _ _ _ _ _ g8_hyps.oldWF g8_hyps.newWF g8_benign g8_hyps.work g8_hyps.perm₁
     g8_hyps.perm₂
 
-/-! ### every clause is needed: instances that violate one clause, on which `commit` fails
+/-! ### the shapes repaired by `os.RemoveAll` in `move` and the temporary names for outputs onto old directories
+    (finding F8, shapes (1) and (2)): two more former counterexamples
 
-  Each instance satisfies ALL other hypotheses of the theorem (`BuildWF` of both builds, `WorkOK`, the orders
-  are permutations of the sources: `*_hyps`), violates `BenignKindChanges` (`*_not_benign`), and the model's
-  `commit` returns an error (`*_fails`). -/
+  F8 (1) and F8 (2) were machine-checked instances on which the model's `commit` — and the code — failed with
+  ENOTEMPTY: a regular file of the new build goes where the old build has a NON-EMPTY directory, and the
+  destination was cleared with `os.Remove`.  Since the repair `move` (the transpositions' renames, the cleanup
+  renames) and the staged moves clear a destination that is a directory with `os.RemoveAll` (`Commit.clearDest`),
+  and a transposition output that is a directory of the old build is written under a temporary name first and
+  renamed by the cleanup phase, after every group has been read (`safePass … old.dirs`).  The model follows; the
+  instances are kept, with the opposite conclusion (`f8_1_ok`, `f8_2_ok`, by evaluation). -/
 
-/-! #### F8 (1) dir → file, a NEW file on a NON-EMPTY old directory (violates `emptyDir`): ENOTEMPTY -/
+/-! #### F8 (1) dir → file, a NEW file on a NON-EMPTY old directory.  Formerly ENOTEMPTY; now the staged move
+    removes the directory with the ghost `a/f` in it. -/
 def f1Work : Work := { moveFiles := [0] }
+def f1T : Tree := { entries := [(["a"], .file [2])] }
 
 theorem f8_1_hyps : OtherHyps exF8Old exF8New f1Work [] [] :=
   ⟨⟨by decide, by decide, parents_of_check (by decide)⟩, ⟨by decide, by decide, parents_of_check (by decide)⟩,
     WorkOK.of_check (by decide) (by decide) (by decide) (by decide) (by decide) (by decide) (by decide)
       (by decide) (by decide), by decide, by decide⟩
-theorem f8_1_not_benign : ¬ BenignKindChanges exF8Old exF8New f1Work :=
-  fun h => absurd (h.emptyDir ["a"] (by decide) (by decide) ["a", "f"] (by decide)) (by decide)
-theorem f8_1_fails : failsWith (commit exF8Old exF8New f1Work [] [] (treeOfBuild exF8Old)) .enotempty = true := by
-  decide
+theorem f8_1_clash : ¬ NoKindClash exF8Old exF8New :=
+  not_noKindClash ["a"] .dir .file (by decide) (by decide) (by decide)
+theorem f8_1_commit : commit exF8Old exF8New f1Work [] [] (treeOfBuild exF8Old) = .ok f1T :=
+  eq_of_yields (by decide +kernel)
 
-/-! #### F8 (2) dir → file, an old file RENAMED onto a non-empty old directory (violates `emptyDir`):
-    ENOTEMPTY -/
+/-- the commit yields exactly the new build: `a` is the regular file, `a/f` is gone -/
+theorem f8_1_ok : ∃ t', commit exF8Old exF8New f1Work [] [] (treeOfBuild exF8Old) = .ok t' ∧ Holds t' exF8New :=
+  ⟨f1T, f8_1_commit, holds_of_check (by decide)⟩
+
+/-- the instance is inside `BenignKindChanges` now that the clause `emptyDir` is gone -/
+theorem f8_1_benign : BenignKindChanges exF8Old exF8New f1Work :=
+  BenignKindChanges.of_check (by decide) (by decide)
+
+/-- it also follows from the theorem -/
+example : ∃ t', commit exF8Old exF8New f1Work [] [] (treeOfBuild exF8Old) = .ok t' ∧ Holds t' exF8New :=
+  commit_correct_kinds_partial _ _ _ _ _ f8_1_hyps.oldWF f8_1_hyps.newWF f8_1_benign f8_1_hyps.work
+    f8_1_hyps.perm₁ f8_1_hyps.perm₂
+
+/-! #### F8 (2) dir → file, an old file RENAMED onto a non-empty old directory.  Formerly ENOTEMPTY; now `y` is
+    renamed to `d.butler-rename-1`, and the cleanup rename removes the directory `d` with the ghost `d/x` in it
+    and puts the file in its place. -/
 def f2Old : Build := { dirs := [["d"]], files := [(["d", "x"], [1]), (["y"], [2])] }
 def f2New : Build := { files := [(["d"], [2])] }
 def f2Work : Work := { transpositions := [(0, 1)] }
+def f2T : Tree := { entries := [(["d"], .file [2])] }
 
 theorem f8_2_hyps : OtherHyps f2Old f2New f2Work [["y"]] [["y"]] :=
   ⟨⟨by decide, by decide, parents_of_check (by decide)⟩, ⟨by decide, by decide, parents_of_check (by decide)⟩,
     WorkOK.of_check (by decide) (by decide) (by decide) (by decide) (by decide) (by decide) (by decide)
       (by decide) (by decide), by decide, by decide⟩
-theorem f8_2_not_benign : ¬ BenignKindChanges f2Old f2New f2Work :=
-  fun h => absurd (h.emptyDir ["d"] (by decide) (by decide) ["d", "x"] (by decide)) (by decide)
-theorem f8_2_fails :
-    failsWith (commit f2Old f2New f2Work [["y"]] [["y"]] (treeOfBuild f2Old)) .enotempty = true := by
+theorem f8_2_clash : ¬ NoKindClash f2Old f2New :=
+  not_noKindClash ["d"] .dir .file (by decide) (by decide) (by decide)
+/-- the output `d` is a directory of the old build: it goes through a temporary name (without the old
+    directories as flagged outputs — the first pass as it was — it is written directly) -/
+theorem f8_2_first_pass :
+    (safePass (groupsOf [⟨["y"], ["d"]⟩] [["y"]]) [["y"]] (pathsInUse f2Old f2New) f2Old.dirs).2.map
+        (fun c => (c.targetPath, c.outputPath)) = [(["d.butler-rename-1"], ["d"])] ∧
+    (safePass (groupsOf [⟨["y"], ["d"]⟩] [["y"]]) [["y"]] (pathsInUse f2Old f2New)).2.map
+        (fun c => (c.targetPath, c.outputPath)) = [] := by
   decide
+theorem f8_2_e1 : f2New.dirs.foldlM ensureDir (treeOfBuild f2Old) = .ok (treeOfBuild f2Old) := rfl
+/-- `y` is renamed to `d.butler-rename-1`; the cleanup rename removes `d` and `d/x` and puts the file there -/
+theorem f8_2_e2 : applyTranspositions f2Old f2New f2Work [["y"]] [["y"]] (treeOfBuild f2Old) = .ok f2T :=
+  eq_of_yields (by decide)
+theorem f8_2_e3 : applyMoves f2New f2Work f2T = .ok f2T := rfl
+theorem f8_2_e4 : applyOverlays f2New f2Work f2T = .ok f2T := rfl
+theorem f8_2_e5 : f2New.symlinks.foldlM (fun t (p, d) => ensureSymlink t p d) f2T = .ok f2T := rfl
+/-- the ghost `d/x` lies below the new file `d` and is skipped, the ghost `y` has been renamed away -/
+theorem f8_2_e6 : deleteGhosts f2Old f2New f2T = .ok f2T := deleteGhosts_noop (by decide)
+theorem f8_2_commit : commit f2Old f2New f2Work [["y"]] [["y"]] (treeOfBuild f2Old) = .ok f2T := by
+  simp only [commit, bind, Except.bind, f8_2_e1, f8_2_e2, f8_2_e3, f8_2_e4, f8_2_e5, f8_2_e6]
+
+/-- the commit yields exactly the new build: `d` is the regular file with the content of `y`; `d/x` and `y` are
+    gone -/
+theorem f8_2_ok :
+    ∃ t', commit f2Old f2New f2Work [["y"]] [["y"]] (treeOfBuild f2Old) = .ok t' ∧ Holds t' f2New :=
+  ⟨f2T, f8_2_commit, holds_of_check (by decide)⟩
+
+/-- the instance is inside `BenignKindChanges` now that the clause `emptyDir` is gone -/
+theorem f8_2_benign : BenignKindChanges f2Old f2New f2Work :=
+  BenignKindChanges.of_check (by decide) (by decide)
+
+example : ∃ t', commit f2Old f2New f2Work [["y"]] [["y"]] (treeOfBuild f2Old) = .ok t' ∧ Holds t' f2New :=
+  commit_correct_kinds_partial _ _ _ _ _ f8_2_hyps.oldWF f8_2_hyps.newWF f8_2_benign f8_2_hyps.work
+    f8_2_hyps.perm₁ f8_2_hyps.perm₂
+
+/-! #### F8 (2'), the shape the temporary names are for: the old file renamed onto the directory comes from INSIDE
+    it, and another file of the directory is renamed out.  Written directly (`os.RemoveAll d`, then the rename)
+    the output `d` would destroy the sources `d/x` and `d/z` before they are read; it is written to
+    `d.butler-rename-N` instead, and the cleanup rename runs after every group.  Every pair of visiting orders. -/
+def f2bOld : Build := { dirs := [["d"]], files := [(["d", "x"], [1]), (["d", "z"], [2]), (["d", "g"], [3])] }
+def f2bNew : Build := { files := [(["d"], [1]), (["o"], [2])] }
+def f2bWork : Work := { transpositions := [(0, 0), (1, 1)] }
+
+theorem f8_2b_hyps (o₁ o₂ : List Path) (h₁ : o₁.Perm [["d", "x"], ["d", "z"]]) (h₂ : o₂.Perm [["d", "x"], ["d", "z"]]) :
+    OtherHyps f2bOld f2bNew f2bWork o₁ o₂ :=
+  ⟨⟨by decide, by decide, parents_of_check (by decide)⟩, ⟨by decide, by decide, parents_of_check (by decide)⟩,
+    WorkOK.of_check (by decide) (by decide) (by decide) (by decide) (by decide) (by decide) (by decide)
+      (by decide) (by decide), h₁, h₂⟩
+theorem f8_2b_benign : BenignKindChanges f2bOld f2bNew f2bWork :=
+  BenignKindChanges.of_check (by decide) (by decide)
+theorem f8_2b_ok (o₁ o₂ : List Path) (h₁ : o₁.Perm [["d", "x"], ["d", "z"]]) (h₂ : o₂.Perm [["d", "x"], ["d", "z"]]) :
+    ∃ t', commit f2bOld f2bNew f2bWork o₁ o₂ (treeOfBuild f2bOld) = .ok t' ∧ Holds t' f2bNew :=
+  commit_correct_kinds_partial _ _ _ _ _ (f8_2b_hyps o₁ o₂ h₁ h₂).oldWF (f8_2b_hyps o₁ o₂ h₁ h₂).newWF
+    f8_2b_benign (f8_2b_hyps o₁ o₂ h₁ h₂).work h₁ h₂
+
+/-! ### every clause is needed: instances that violate one clause, on which `commit` fails
+
+  Each instance satisfies ALL other hypotheses of the theorem (`BuildWF` of both builds, `WorkOK`, the orders
+  are permutations of the sources: `*_hyps`), violates `BenignKindChanges` (`*_not_benign`), and the model's
+  `commit` returns an error (`*_fails`).  (F8 (1) and F8 (2) used to be here, violating `emptyDir`: see above.) -/
 
 /-! #### F8 (3) file → dir, the directory holding the old file renamed (violates `sources`): the file is
     cleared by `ensureDirs`, the transposition finds a directory, EISDIR -/
@@ -782,24 +883,27 @@ def g9New' : Build := { dirs := [["a"], ["a", "x"]] }
 theorem g9_reordered_ok : ∃ t', commit g9Old g9New' {} [] [] (treeOfBuild g9Old) = .ok t' ∧ Holds t' g9New' :=
   commit_correct_kinds_partial _ _ _ _ _ ⟨by decide, by decide, parents_of_check (by decide)⟩
     ⟨by decide, by decide, parents_of_check (by decide)⟩
-    (BenignKindChanges.of_check (by decide) (by decide) (by decide))
+    (BenignKindChanges.of_check (by decide) (by decide))
     (WorkOK.of_check (by decide) (by decide) (by decide) (by decide) (by decide) (by decide) (by decide)
       (by decide) (by decide)) (by decide) (by decide)
 
 /-! ### what the reordering changes OUTSIDE `BenignKindChanges`
 
-  Inside `BenignKindChanges` — the former, stronger one as well as the present one — the commit is right before
-  and after the repair of F27 (`commit_correct_kinds_partial`; the former predicate implies the present one).
+  Inside `BenignKindChanges` — the former, stronger ones as well as the present one — the commit is right before
+  and after the repair of F27 (`commit_correct_kinds_partial`; the former predicates imply the present one).
   Outside, an exhaustive comparison of the two orders with the compiled model on some 34 million runs over small
   builds (three top-level names, directories with up to two entries, every admissible work record) found, next to
-  3.1 million runs the reordering repairs, two ways in which it does harm.  Both are confined to the known
-  failing classes F8 (1)-(3), which `BenignKindChanges` excludes; one instance of each is kept here.
+  3.1 million runs the reordering repairs, two ways in which it did harm.  Both were confined to the then known
+  failing classes F8 (1)-(3); one instance of each is kept here.
 
-  (10) violates `emptyDir` (class F8 (1)).  The former order got it right BY ACCIDENT: the transposition source
-  `a/y` was looked up through the symlink that had already replaced `a`, the file found there was `b/y` — which
-  happens to have the same content — and renaming it away emptied the directory `b` just in time for the file `b`
-  to replace it.  Now the right file is renamed, `b` is not empty, and the staged move fails as in F8 (1):
-  ENOTEMPTY (`h10_before_ok`, `h10_fails`).  All 1798 runs of this kind violate `emptyDir`.
+  (10) violated the former clause `emptyDir` (class F8 (1)).  The former order got it right BY ACCIDENT: the
+  transposition source `a/y` was looked up through the symlink that had already replaced `a`, the file found
+  there was `b/y` — which happens to have the same content — and renaming it away emptied the directory `b` just
+  in time for the file `b` to replace it.  After the reordering the right file is renamed, `b` is not empty, and
+  the staged move failed as in F8 (1), ENOTEMPTY (the former `h10_fails`; all 1798 runs of this kind violated
+  `emptyDir`).  Since the repair of F8 (1)/(2) the staged move removes the directory with the ghost `b/y` in it:
+  the commit is right, and for the right reason (`h10_before_ok`, `h10_ok`); the instance is inside
+  `BenignKindChanges` (`h10_benign`).
 
   (11) violates `sources` (class F8 (3)).  Both orders rename the DIRECTORY `b` that `ensureDirs` put in place of
   the source `b`, and so go wrong; the former order then failed (ENOENT) because the other source, `c`, had been
@@ -818,7 +922,10 @@ def commitBeforeF27 (old new : Build) (w : Work) (o₁ o₂ : List Path) (t : Tr
   deleteGhosts old new t
 
 /-! #### (10) dir → symlink, a file of the directory renamed out, and the symlink's destination a NON-EMPTY
-    directory that becomes a file and holds a file of the same name and content -/
+    directory that becomes a file and holds a file of the same name and content.  (`commitBeforeF27` is the
+    present model but for the order of the phases: its `move` and staged moves are the repaired ones; on this
+    instance the staged move onto `b` finds an EMPTY directory there — the accident — so that makes no
+    difference.) -/
 def h10Old : Build := { dirs := [["a"], ["b"]], files := [(["a", "y"], [1]), (["b", "y"], [1])] }
 def h10New : Build := { symlinks := [(["a"], "b")], files := [(["b"], [1]), (["c"], [1])] }
 def h10Work : Work := { transpositions := [(1, 0)], moveFiles := [0] }
@@ -830,11 +937,40 @@ theorem h10_hyps : OtherHyps h10Old h10New h10Work [["a", "y"]] [["a", "y"]] :=
   ⟨⟨by decide, by decide, parents_of_check (by decide)⟩, ⟨by decide, by decide, parents_of_check (by decide)⟩,
     WorkOK.of_check (by decide) (by decide) (by decide) (by decide) (by decide) (by decide) (by decide)
       (by decide) (by decide), by decide, by decide⟩
-theorem h10_not_benign : ¬ BenignKindChanges h10Old h10New h10Work :=
-  fun h => absurd (h.emptyDir ["b"] (by decide) (by decide) ["b", "y"] (by decide)) (by decide)
-theorem h10_fails :
-    failsWith (commit h10Old h10New h10Work [["a", "y"]] [["a", "y"]] (treeOfBuild h10Old)) .enotempty = true := by
-  decide
+theorem h10_clash : ¬ NoKindClash h10Old h10New :=
+  not_noKindClash ["b"] .dir .file (by decide) (by decide) (by decide)
+/-- now (F27 and F8 (1)/(2) repaired): the right file `a/y` is renamed to `c`, the staged move removes the
+    directory `b` with the ghost `b/y` in it -/
+def h10U2 : Tree := { entries := [(["a"], .dir), (["b"], .dir), (["b", "y"], .file [1]), (["c"], .file [1])] }
+def h10U3 : Tree := { entries := [(["a"], .dir), (["c"], .file [1]), (["b"], .file [1])] }
+def h10U5 : Tree := { entries := [(["c"], .file [1]), (["b"], .file [1]), (["a"], .symlink "b")] }
+theorem h10_e1 : h10New.dirs.foldlM ensureDir (treeOfBuild h10Old) = .ok (treeOfBuild h10Old) := rfl
+/-- the right file, `a/y`, is renamed to `c` -/
+theorem h10_e2 :
+    applyTranspositions h10Old h10New h10Work [["a", "y"]] [["a", "y"]] (treeOfBuild h10Old) = .ok h10U2 :=
+  eq_of_yields (by decide)
+/-- the staged move removes the directory `b` with the ghost `b/y` in it (`os.RemoveAll`) -/
+theorem h10_e3 : applyMoves h10New h10Work h10U2 = .ok h10U3 := eq_of_yields (by decide)
+theorem h10_e4 : applyOverlays h10New h10Work h10U3 = .ok h10U3 := rfl
+theorem h10_e5 : h10New.symlinks.foldlM (fun t (p, d) => ensureSymlink t p d) h10U3 = .ok h10U5 :=
+  eq_of_yields (by decide +kernel)
+/-- both ghosts, `a/y` and `b/y`, lie below a path that is now a symlink or a file: skipped -/
+theorem h10_e6 : deleteGhosts h10Old h10New h10U5 = .ok h10U5 := deleteGhosts_noop (by decide)
+theorem h10_commit :
+    commit h10Old h10New h10Work [["a", "y"]] [["a", "y"]] (treeOfBuild h10Old) = .ok h10U5 := by
+  simp only [commit, bind, Except.bind, h10_e1, h10_e2, h10_e3, h10_e4, h10_e5, h10_e6]
+theorem h10_ok :
+    ∃ t', commit h10Old h10New h10Work [["a", "y"]] [["a", "y"]] (treeOfBuild h10Old) = .ok t' ∧
+      Holds t' h10New :=
+  ⟨h10U5, h10_commit, holds_of_check (by decide)⟩
+/-- the instance is inside `BenignKindChanges` now that the clause `emptyDir` is gone -/
+theorem h10_benign : BenignKindChanges h10Old h10New h10Work :=
+  BenignKindChanges.of_check (by decide) (by decide)
+example :
+    ∃ t', commit h10Old h10New h10Work [["a", "y"]] [["a", "y"]] (treeOfBuild h10Old) = .ok t' ∧
+      Holds t' h10New :=
+  commit_correct_kinds_partial _ _ _ _ _ h10_hyps.oldWF h10_hyps.newWF h10_benign h10_hyps.work h10_hyps.perm₁
+    h10_hyps.perm₂
 
 theorem h10_b1 : ensureAll h10New (treeOfBuild h10Old) = .ok h10T1 := eq_of_yields (by decide +kernel)
 
@@ -844,13 +980,12 @@ theorem h10_canon : canon h10T1 ["a", "y"] = .ok ["b", "y"] := by
   rfl
 
 theorem h10_move : moveFile h10T1 ["a", "y"] ["c"] = .ok h10T2 := by
-  have hrm : remove h10T1 ["c"] = .error .enoent := rfl
+  have hrm : clearDest h10T1 ["c"] = .ok h10T1 := rfl
   have hmk : mkdirs h10T1 (["c"] : Path).dropLast = .ok h10T1 := rfl
   have hrn : rename h10T1 ["a", "y"] ["c"] = .ok h10T2 := by
     simp only [rename, h10_canon, bind, Except.bind]
     rfl
   simp only [moveFile, hrm, hmk, hrn, bind, Except.bind]
-  rfl
 
 theorem h10_b2 : applyTranspositions h10Old h10New h10Work [["a", "y"]] [["a", "y"]] h10T1 = .ok h10T2 := by
   rw [Commit.applyTranspositions_eq]
@@ -866,17 +1001,6 @@ theorem h10_b2 : applyTranspositions h10Old h10New h10Work [["a", "y"]] [["a", "
 
 theorem h10_b3 : applyMoves h10New h10Work h10T2 = .ok h10T3 := eq_of_yields (by decide +kernel)
 theorem h10_b4 : applyOverlays h10New h10Work h10T3 = .ok h10T3 := eq_of_yields (by decide +kernel)
-/-- ghost deletion when every ghost lies below a file or a symlink of the new build: all are skipped, in
-    whatever order they come -/
-theorem ghosts_all_skipped (leaves : List Path) (t : Tree) : ∀ (L : List (Path × Bool)),
-    (∀ x ∈ L, leaves.any (fun l => isPrefix l x.1) = true) → L.foldlM (Commit.ghostStep leaves) t = .ok t
-  | [], _ => rfl
-  | x :: L, h => by
-    have hx : Commit.ghostStep leaves t x = .ok t := by
-      simp only [Commit.ghostStep, h x (by simp), if_true]
-    simp only [List.foldlM_cons, hx, bind, Except.bind]
-    exact ghosts_all_skipped leaves t L (fun y hy => h y (by simp [hy]))
-
 /-- both ghosts, `a/y` and `b/y`, lie below a path that is now a symlink or a file -/
 theorem h10_b5 : deleteGhosts h10Old h10New h10T3 = .ok h10T3 := by
   rw [Commit.deleteGhosts_eq]
@@ -918,30 +1042,76 @@ theorem h11_wrong :
       true := by
   decide +kernel
 
+/-! ### what the repair of F8 (1)/(2) changes OUTSIDE `BenignKindChanges`
+
+  An exhaustive comparison of the model before and after the repair of F8 (1)/(2) (`os.RemoveAll` in `move` and in
+  the staged moves, temporary names for outputs that are old directories) with the compiled model, on the same
+  34450200 runs over small builds as above: NO run that yielded the new build before fails or goes wrong now;
+  6310093 runs that failed now yield the new build; on the 26631920 runs inside the present `BenignKindChanges` the
+  commit yields the new build (the theorem), on the 19225101 inside the former one it did and does.  575580 runs
+  that ended in an error now end in a WRONG tree with success reported.  All of them violate `sources` (and the
+  former `emptyDir`): they are in the failing class F8 (3), which may end in a wrong tree anyway (`h11_wrong`).
+  One instance is kept here.
+
+  (12) violates `sources`.  The source `c` becomes a directory and is cleared by `ensureDirs`; the transposition
+  `c → b` then renames the DIRECTORY `c`.  Its output `b` is a non-empty directory of the old build: before the
+  repair `os.Remove b` failed (ENOTEMPTY) and the commit with it; now `c` is renamed to `b.butler-rename-1`, the
+  cleanup rename removes `b` with `b/x` and puts the directory there, and the commit reports success: `b` is a
+  directory instead of a file and `c` is gone (`h12_wrong`). -/
+def h12Old : Build := { dirs := [["b"]], files := [(["c"], [1]), (["b", "x"], [2])] }
+def h12New : Build := { dirs := [["c"]], files := [(["b"], [1])] }
+def h12Work : Work := { transpositions := [(0, 0)] }
+
+theorem h12_hyps : OtherHyps h12Old h12New h12Work [["c"]] [["c"]] :=
+  ⟨⟨by decide, by decide, parents_of_check (by decide)⟩, ⟨by decide, by decide, parents_of_check (by decide)⟩,
+    WorkOK.of_check (by decide) (by decide) (by decide) (by decide) (by decide) (by decide) (by decide)
+      (by decide) (by decide), by decide, by decide⟩
+theorem h12_not_benign : ¬ BenignKindChanges h12Old h12New h12Work :=
+  fun h => h.sources ["c"] (by decide) (by decide)
+/-- success reported, `b` is a directory, `c` is missing -/
+theorem h12_wrong :
+    yields (commit h12Old h12New h12Work [["c"]] [["c"]] (treeOfBuild h12Old)) [(["b"], .dir)] = true := by
+  decide +kernel
+theorem h12_not_holds :
+    ¬ ∃ t', commit h12Old h12New h12Work [["c"]] [["c"]] (treeOfBuild h12Old) = .ok t' ∧ Holds t' h12New := by
+  rintro ⟨t', h1, h2⟩
+  rw [eq_of_yields h12_wrong] at h1
+  cases h1
+  have := h2 ["c"]
+  revert this
+  decide
+
 /-! ### the full-strength statement is false (F8), and so is it for each of the instances above
 
-  (`commitCorrect_false_5`, `_6`, `_7` and, since the repair of F27, `_4` and `_8` are gone with the defects they
-  relied on: on (5), (6), (7), F8 (4), (8) the commit is right now.) -/
+  (`commitCorrect_false_5`, `_6`, `_7`, since the repair of F27 `_4` and `_8`, and since the repair of F8 (1)/(2)
+  `_2` are gone with the defects they relied on: on (5), (6), (7), F8 (4), (8), F8 (1), F8 (2) the commit is
+  right now.  `commitCorrect_false` used to rest on F8 (1); it rests on F8 (3) now.) -/
 
 theorem commitCorrect_false : ¬ CommitCorrect :=
-  not_commitCorrect_of f8_1_hyps (not_ok_of_failsWith f8_1_fails _)
+  not_commitCorrect_of f8_3_hyps (not_ok_of_failsWith f8_3_fails _)
 
-theorem commitCorrect_false_2 : ¬ CommitCorrect := not_commitCorrect_of f8_2_hyps (not_ok_of_failsWith f8_2_fails _)
 theorem commitCorrect_false_3 : ¬ CommitCorrect := not_commitCorrect_of f8_3_hyps (not_ok_of_failsWith f8_3_fails _)
 theorem commitCorrect_false_9 : ¬ CommitCorrect := not_commitCorrect_of g9_hyps (not_ok_of_failsWith g9_fails _)
+theorem commitCorrect_false_12 : ¬ CommitCorrect := not_commitCorrect_of h12_hyps h12_not_holds
 
 /-! ### what remains
 
-  `BenignKindChanges` is sufficient, and each clause is necessary in the sense that dropping it admits one of the
-  instances above; one clause still excludes MORE than the model's `commit` gets wrong:
+  `BenignKindChanges` is sufficient, and each of its two clauses is necessary in the sense that dropping it admits
+  one of the instances above.  `sources` and `dirOrder` are exact up to accidents (a cleared source is lost; a
+  directory listed before the file or symlink above it is created in the wrong place or not at all).  Both are
+  about `ensureDirs`, which still runs first: a new directory has to be there before files are renamed, copied or
+  staged into it.
 
-  * `emptyDir` — a non-empty old directory that becomes a file is fine when everything below it has been MOVED out
-    by the transpositions before the file arrives; whether that is the case depends on the visiting order, and
-    the instances F8 (1), F8 (2) show the failure.
-
-  `sources` and `dirOrder` are exact up to accidents (a cleared source is lost; a directory listed before the file
-  or symlink above it is created in the wrong place or not at all).  Both are about `ensureDirs`, which still
-  runs first: a new directory has to be there before files are renamed, copied or staged into it.
+  Gone with the repair of F8 (1)/(2):
+  * `emptyDir` — an old directory that becomes a regular file may hold anything: `move` and the staged moves remove
+    it with all that is left below it when the file arrives (`Commit.clearDest_spec`, `Commit.moveFile_specD`,
+    `Commit.stageStep_specD`), and by then all that is left is ghosts, every transposition having been applied;
+    a transposition output onto such a directory is deferred to the cleanup phase (`f8_2_first_pass`), so the
+    second pass — described by `Commit.SameX` with the new file paths that are NOT old directories as soft paths
+    (`Commit.Soft`) — leaves the directory and the sources below it alone (`f8_2b_ok`: the file renamed onto the
+    directory comes from inside it).  In the helper lemmas the state after the transposition phase
+    (`Commit.Transposed'`) speaks about the paths that are not below a new file path; what is below one is gone
+    at the end because the file is there (`TInv`).
 
   Gone with the repairs of F25, F26 and F27 (they used to be listed here as excluding too much, or as necessary):
   * `outputs` — a transposition output may now land on an old symlink or on an empty old directory whether it is
@@ -968,12 +1138,14 @@ theorem commitCorrect_false_9 : ¬ CommitCorrect := not_commitCorrect_of g9_hyps
 -- #print axioms commit_kinds_order_independent    -- [propext, Classical.choice, Quot.sound]
 -- #print axioms NoKindClash.benign                -- [propext, Quot.sound]
 -- #print axioms commit_correct_partial_of_kinds   -- [propext, Classical.choice, Quot.sound]
--- #print axioms BenignKindChanges.outputs         -- [propext, Quot.sound]
 -- #print axioms b1_ok                             -- (b1 … b7: the same three)
 -- #print axioms f8_4_ok                           -- [propext, Classical.choice, Quot.sound]
 -- #print axioms g8_ok                             -- [propext, Classical.choice, Quot.sound]
 -- #print axioms h10_before_ok                     -- [propext, Classical.choice, Quot.sound]
--- #print axioms h10_fails                         -- [propext, Classical.choice, Quot.sound]
+-- #print axioms h10_ok                            -- [propext, Classical.choice, Quot.sound]
+-- #print axioms f8_1_ok                           -- [propext, Classical.choice, Quot.sound]
+-- #print axioms f8_2_ok                           -- [propext, Classical.choice, Quot.sound]
+-- #print axioms f8_2b_ok                          -- [propext, Classical.choice, Quot.sound]
 -- #print axioms h11_wrong                         -- [propext, Classical.choice, Quot.sound]
 -- #print axioms g5_ok                             -- [propext, Classical.choice, Quot.sound]
 -- #print axioms g6_ok                             -- [propext, Classical.choice, Quot.sound]
